@@ -10,7 +10,6 @@ import (
 	"github.com/gofiber/fiber/v3/client"
 
 	"verifharness/internal/ev"
-	"verifharness/internal/gen"
 )
 
 // runRace: 32 goroutines share one client against the delaying echo server; timeouts sit one
@@ -19,13 +18,18 @@ import (
 // error channel. The yield hook widens the hand-off window by up to 2 ms (real time).
 func runRace(e *ev.Env) {
 	const workers = 32
-	perWorker := e.N(30, 60)
+	const perWorker = 30
 	e.Cases("race", e.N(3, 20), func(c *ev.Case) {
 		rig := newOwnRig(true)
 		var hookN atomic.Int64
+		// two cases in three widen the hand-off window at the hook; the others only count
+		widen := c.R.Intn(3) != 0
+		if widen {
+			e.Stat("cases_with_widened_window", 1)
+		}
 		client.SetVerifYield(func(string) {
 			n := hookN.Add(1)
-			if d := n % 3; d > 0 {
+			if d := n % 3; widen && d > 0 {
 				time.Sleep(time.Duration(d) * time.Millisecond)
 			}
 		})
@@ -51,7 +55,6 @@ func runRace(e *ev.Env) {
 				}
 				plans[w] = append(plans[w], rq)
 			}
-			_ = gen.Lower
 		}
 		var mu sync.Mutex
 		var results []ownResult
@@ -115,9 +118,8 @@ func runRace(e *ev.Env) {
 			}
 			e.Violation(c, f.sig, f.what, f.detail)
 		}
-		for sig, n := range reported {
+		for _, n := range reported {
 			e.Stat("violating_calls", int64(n))
-			_ = sig
 		}
 	})
 }
